@@ -310,6 +310,11 @@ def classify_call(prog: Program, fi: FuncInfo, call: ast.Call) -> list[Effect]:
     d = dotted(f) or ""
     for e in ext:
         if (e.startswith("numpy.random.") or e.startswith("random.")) and "()" not in e:
+            # methods of a generator *object* (numpy.random.Generator.integers, RandomState.uniform, random.Random.random)
+            # draw from that object's own stream, not from the module-level state
+            parts = e.split(".")
+            if len(parts) >= 2 and parts[-2] in ("Generator", "RandomState", "Random", "SeedSequence", "BitGenerator") and recv is not None:
+                continue
             out.append(Effect("rng", "global:" + e, call))
     if recv is not None and (dotted(recv) or "").endswith(".rng") and not tg.funcs():
         out.append(Effect("rng", "seeded:" + (attr or ""), call, recv))
@@ -624,7 +629,7 @@ def module_const_env(prog: Program, mod) -> dict:
                 v = ceval(val, env)
             except Exception:  # noqa: BLE001
                 continue
-            if isinstance(v, (int, float, str, bytes, tuple, bool)) or v is None:
+            if isinstance(v, (int, float, str, bytes, tuple, bool, dict, list, frozenset)) or v is None:
                 env[tgt] = v
     # constants imported from other modules of the package
     for local, imp in getattr(mod, "imports", {}).items():
@@ -684,6 +689,45 @@ def ceval(expr: ast.AST, env: dict):
         return tuple(vals) if isinstance(expr, ast.Tuple) else list(vals)
     if isinstance(expr, ast.Dict) and all(k is not None for k in expr.keys):
         return {ceval(k, env): ceval(v, env) for k, v in zip(expr.keys, expr.values)}
+    if isinstance(expr, (ast.ListComp, ast.SetComp, ast.GeneratorExp, ast.DictComp)) and not any(g.is_async for g in expr.generators):
+        # comprehension over a foldable iterable (e.g. a name table built from a module-level tuple)
+        budget = [20000]
+
+        def bind(t, v, e2):
+            if isinstance(t, ast.Name):
+                e2[t.id] = v
+            elif isinstance(t, (ast.Tuple, ast.List)) and not any(isinstance(x, ast.Starred) for x in t.elts):
+                v = tuple(v)
+                if len(v) != len(t.elts):
+                    raise Unknown("unpacking in comprehension")
+                for tt, vv in zip(t.elts, v):
+                    bind(tt, vv, e2)
+            else:
+                raise Unknown("comprehension target")
+
+        def rec(gens, e_):
+            if not gens:
+                yield e_
+                return
+            g = gens[0]
+            it = ceval(g.iter, e_)
+            if isinstance(it, dict):
+                it = list(it)
+            if not isinstance(it, (tuple, list, range, str, bytes, frozenset, set)):
+                raise Unknown("comprehension iterable")
+            for item in it:
+                budget[0] -= 1
+                if budget[0] < 0:
+                    raise Unknown("comprehension too large")
+                e2 = dict(e_)
+                bind(g.target, item, e2)
+                if all(ceval(c, e2) for c in g.ifs):
+                    yield from rec(gens[1:], e2)
+
+        if isinstance(expr, ast.DictComp):
+            return {ceval(expr.key, e_): ceval(expr.value, e_) for e_ in rec(expr.generators, env)}
+        vals_ = [ceval(expr.elt, e_) for e_ in rec(expr.generators, env)]
+        return set(vals_) if isinstance(expr, ast.SetComp) else vals_
     if isinstance(expr, ast.JoinedStr):
         parts = []
         for v in expr.values:
